@@ -221,6 +221,54 @@ Proof.
   rewrite Hx. now apply IH.
 Qed.
 
+Lemma tree_ok_set ext a g items b :
+  tree_ok (SSet ext a g items b) = true -> items <> [] /\ forallb tree_ok items = true.
+Proof. cbn [tree_ok]. rewrite andb_true_iff. intros [H1 H2]. split; [|exact H2]. destruct items; [discriminate | discriminate]. Qed.
+Lemma tree_ok_comp arm a g items b :
+  tree_ok (SComp arm a g items b) = true ->
+  (arm < length parse_compound_arms)%nat /\ items <> [] /\ forallb tree_ok items = true.
+Proof.
+  cbn [tree_ok]. rewrite !andb_true_iff. intros [[H0 H1] H2]. apply Nat.ltb_lt in H0. repeat split; [exact H0| |exact H2].
+  destruct items; [discriminate | discriminate].
+Qed.
+Lemma tree_ok_stmt arm a b c d s p :
+  tree_ok (SStmt arm a b c d s p) = true ->
+  (arm < length parse_statement_arms)%nat /\ tree_ok s = true /\ tree_ok p = true.
+Proof. cbn [tree_ok]. rewrite !andb_true_iff. intros [[H0 H1] H2]. apply Nat.ltb_lt in H0. tauto. Qed.
+Lemma tree_ok_atom arm name : tree_ok (SAtom arm name) = true -> (arm < length parse_atom_arms)%nat.
+Proof. cbn [tree_ok]. apply Nat.ltb_lt. Qed.
+
+Lemma omap_some_each {A B} (f : A -> option B) l r : omap f l = Some r -> forall x, In x l -> exists y, f x = Some y.
+Proof.
+  revert r; induction l as [|a l IH]; intros r H x Hx; [destruct Hx|]. rewrite omap_cons in H.
+  destruct (f a) as [y|] eqn:Ha; [|discriminate]. destruct (omap f l) as [ys|]; [|discriminate].
+  destruct Hx as [<-|Hx]; [eauto | eapply IH; eauto].
+Qed.
+
+(* a tree that has a meaning is well-shaped *)
+Lemma odesugar_tree_ok : forall t v, odesugar t = Some v -> tree_ok t = true.
+Proof.
+  induction t as [arm name|ext a g items b IH|arm a g items b IH|arm a b c d x y IHx IHy] using sterm_ind'; intros v Hv.
+  - rewrite odesugar_atom in Hv. cbn [tree_ok]. apply Nat.ltb_lt. apply nth_error_Some.
+    destruct (nth_error parse_atom_arms arm); [discriminate | discriminate].
+  - rewrite odesugar_set in Hv. destruct (omap odesugar items) as [[|v0 vs]|] eqn:Ho; try discriminate.
+    cbn [tree_ok]. apply andb_true_iff. split.
+    + destruct items; [discriminate | reflexivity].
+    + apply forallb_forall. intros z Hz. destruct (omap_some_each _ _ _ Ho z Hz) as [w Hw].
+      rewrite Forall_forall in IH. exact (IH z Hz w Hw).
+  - rewrite odesugar_comp in Hv. destruct (nth_error parse_compound_arms arm) as [[kw init]|] eqn:Hn; [|discriminate].
+    destruct (omap odesugar items) as [[|v0 vs]|] eqn:Ho; try discriminate.
+    cbn [tree_ok]. rewrite !andb_true_iff. repeat split.
+    + apply Nat.ltb_lt. apply nth_error_Some. congruence.
+    + destruct items; [discriminate | reflexivity].
+    + apply forallb_forall. intros z Hz. destruct (omap_some_each _ _ _ Ho z Hz) as [w Hw].
+      rewrite Forall_forall in IH. exact (IH z Hz w Hw).
+  - rewrite odesugar_stmt in Hv. destruct (nth_error parse_statement_arms arm) as [[kw bd]|] eqn:Hn; [|discriminate].
+    destruct (odesugar x) as [vx|] eqn:Hx; [|discriminate]. destruct (odesugar y) as [vy|] eqn:Hy; [|discriminate].
+    cbn [tree_ok]. rewrite !andb_true_iff. repeat split; eauto.
+    apply Nat.ltb_lt. apply nth_error_Some. congruence.
+Qed.
+
 Section AgreeTerm.
   Variable ia : N -> bool.
   Variable E : efmt.
@@ -266,26 +314,26 @@ Section AgreeTerm.
     rewrite (H x (or_introl eq_refl)), IH; [reflexivity|]. intros y Hy. apply H. now right.
   Qed.
 
-  Theorem render_respace0 : forall t, lists_nonempty t = true ->
+  Theorem render_respace0 : forall t, tree_ok t = true ->
     render E (respace 0 t) = f0 L (lex_tree E t).
   Proof.
     destruct ag_brackets as (Hcl & Hcr & Hsep & Hsl & Hsr).
     induction t as [arm name|ext a g items b IH|arm a g items b IH|arm a b c d x y IHx IHy] using sterm_ind';
-      intros Hne; cbn [respace lex_tree lists_nonempty] in *.
+      intros Hne; cbn [respace lex_tree] in *.
     - reflexivity.
-    - apply andb_true_iff in Hne as [Hn Hall]. destruct items as [|x items]; [discriminate|].
+    - apply tree_ok_set in Hne as [Hn Hall]. destruct items as [|x items]; [congruence|].
       rewrite render_set_eq, !sp_zero. cbn [map app]. rewrite render_items_cons. cbn [app].
       rewrite f0_set.
       inversion IH as [|? ? IHx IHl]; subst. cbn [forallb] in Hall. apply andb_true_iff in Hall as [Hx Hl].
       rewrite (IHx Hx), <- !app_assoc. f_equal. f_equal. f_equal.
       apply render_items_respace0. intros y Hy. rewrite Forall_forall in IHl. apply IHl; [exact Hy|].
       now apply (forallb_In _ _ _ Hl).
-    - apply andb_true_iff in Hne as [Hn Hall]. destruct items as [|x items]; [discriminate|].
+    - apply tree_ok_comp in Hne as (_ & Hn & Hall). destruct items as [|x items]; [congruence|].
       rewrite render_comp_eq, !sp_zero. cbn [map app].
       rewrite f0_compound, Hcl, Hcr. f_equal. f_equal. f_equal.
       apply (render_items_respace0 (x :: items)). intros y Hy. rewrite Forall_forall in IH. apply IH; [exact Hy|].
       now apply (forallb_In _ _ _ Hall).
-    - apply andb_true_iff in Hne as [Hx Hy].
+    - apply tree_ok_stmt in Hne as (_ & Hx & Hy).
       rewrite render_stmt_eq, !sp_zero. cbn [app]. rewrite f0_statement, Hsl, Hsr, (IHx Hx), (IHy Hy). reflexivity.
   Qed.
 
@@ -402,5 +450,203 @@ Section AgreeTerm.
     intros Hw. rewrite !idealize_strip, !strip_app. f_equal.
     replace (strip w) with (@nil N); [reflexivity|]. symmetry. apply filter_all_false.
     unfold allws in Hw. rewrite <- Hw. apply forallb_ext'. intros c. now rewrite negb_involutive.
+  Qed.
+
+  (* ---- 4. the lexical domain and the lexical unambiguity conditions, from the enum side ---- *)
+  Lemma ag_vocab :
+    (forall a, In a parse_atom_arms -> In (fst a E) (c_prefixes C)) /\
+    (forall a, In a parse_compound_arms -> In (fst a E) (c_connecters C)) /\
+    (forall a, In a parse_statement_arms -> In (fst a E) (c_copulas C)) /\
+    (forall ext, In (set_lb E ext, set_rb E ext) (c_set_brackets C)) /\
+    (forall c, In c (c_copulas C) -> In c (gen_copulas E)) /\
+    (forall c, ident L ia c = name_charb ia E c) /\
+    copula_lookahead_len_guard = true.
+  Proof.
+    destruct ag_parts as (_ & H & _). unfold agree_vocab in H. rewrite !andb_true_iff in H.
+    destruct H as [[[[[[[H1 H2] H3] H4] H5] H6] H7] H8].
+    split; [intros a Ha; apply str_in_In; exact (forallb_In (fun a => str_in (fst a E) (c_prefixes C)) _ a H1 Ha)|].
+    split; [intros a Ha; apply str_in_In; exact (forallb_In (fun a => str_in (fst a E) (c_connecters C)) _ a H2 Ha)|].
+    split; [intros a Ha; apply str_in_In; exact (forallb_In (fun a => str_in (fst a E) (c_copulas C)) _ a H3 Ha)|].
+    split; [intros [|]; apply pair_in_In; assumption|].
+    split; [intros c Hc; apply str_in_In; exact (forallb_In (fun c => str_in c (gen_copulas E)) _ c H6 Hc)|].
+    split; [|exact H8].
+    intros c. unfold ident, is_identifier, name_charb. unfold ncs_eqb in H7. rewrite !andb_true_iff in H7.
+    destruct H7 as [[Ha Hx] Hab]. apply Bool.eqb_prop in Ha. apply str_eqb_eq in Hx. rewrite Ha, Hx.
+    destruct (nc_above (name_char E)) as [x|], (nc_above (l_is_identifier L)) as [y|]; try discriminate; [|reflexivity].
+    apply N.eqb_eq in Hab. now subst.
+  Qed.
+
+  Lemma atom_prefix_in arm : (arm < length parse_atom_arms)%nat -> In (atom_prefix E arm) (c_prefixes C).
+  Proof.
+    intros H. unfold atom_prefix. destruct (nth_error parse_atom_arms arm) as [[p i]|] eqn:Hn.
+    - destruct ag_vocab as (Hv & _). exact (Hv _ (nth_error_In _ _ Hn)).
+    - apply nth_error_None in Hn. lia.
+  Qed.
+  Lemma comp_kw_in arm : (arm < length parse_compound_arms)%nat -> In (comp_kw E arm) (c_connecters C).
+  Proof.
+    intros H. unfold comp_kw. destruct (nth_error parse_compound_arms arm) as [[p i]|] eqn:Hn.
+    - destruct ag_vocab as (_ & Hv & _). exact (Hv _ (nth_error_In _ _ Hn)).
+    - apply nth_error_None in Hn. lia.
+  Qed.
+  Lemma stmt_kw_in arm : (arm < length parse_statement_arms)%nat -> In (stmt_kw E arm) (c_copulas C).
+  Proof.
+    intros H. unfold stmt_kw. destruct (nth_error parse_statement_arms arm) as [[p i]|] eqn:Hn.
+    - destruct ag_vocab as (_ & _ & Hv & _). exact (Hv _ (nth_error_In _ _ Hn)).
+    - apply nth_error_None in Hn. lia.
+  Qed.
+
+  Lemma In_str_in s d : In s d -> str_in s d = true.
+  Proof. intros H. unfold str_in. apply existsb_exists. exists s. split; [exact H | apply str_eqb_refl]. Qed.
+  Lemma In_pair_in (t : str * str) d : In t d -> pair_in t d = true.
+  Proof. intros H. unfold pair_in. apply existsb_exists. exists t. split; [exact H | now rewrite !str_eqb_refl]. Qed.
+
+  (* the name scan of the enum parser: what name_scan_ok says *)
+  Lemma name_scan_ok_spec name k : name_scan_ok ia E name k = true ->
+    forallb (name_charb ia E) name = true /\
+    forall i, (i < length name)%nat -> copula_head_str E (drop i name ++ k) = false.
+  Proof.
+    induction name as [|c n IH]; cbn [name_scan_ok]; intros H.
+    - split; [reflexivity | intros i Hi; cbn in Hi; lia].
+    - rewrite !andb_true_iff, negb_true_iff in H. destruct H as [[Hc Hn] Hr]. destruct (IH Hr) as [Hall Hcop].
+      split; [cbn [forallb]; now rewrite Hn, Hall|].
+      intros [|i] Hi; [exact Hc|]. cbn [drop]. apply Hcop. cbn [length] in Hi. lia.
+  Qed.
+
+  Lemma sws_starts : forall c r, (length c <= length r)%nat -> sws r c = starts c r.
+  Proof.
+    induction c as [|x c IH]; intros r H; [destruct r; reflexivity|]. destruct r as [|y r]; [cbn in H; lia|].
+    cbn [sws starts]. rewrite (N.eqb_sym y x). destruct (x =? y); cbn [andb]; [|reflexivity].
+    apply IH. cbn [length] in H. lia.
+  Qed.
+
+  Lemma copula_head_false r c : copula_head_str E r = false -> In c (gen_copulas E) -> starts c r = false.
+  Proof.
+    destruct ag_vocab as (_ & _ & _ & _ & _ & _ & Hg). unfold copula_head_str. rewrite Hg. intros H Hc.
+    destruct (starts c r) eqn:Hs; [|reflexivity]. exfalso.
+    assert (Hex : existsb (fun c0 => (length c0 <=? length r)%nat && EnumParser.starts_with_str r c0) (gen_copulas E) = true).
+    { apply existsb_exists. exists c. split; [exact Hc|]. pose proof (starts_length _ _ Hs) as Hl.
+      apply andb_true_iff. split; [now apply Nat.leb_le|]. unfold EnumParser.starts_with_str.
+      destruct c as [|x c]; [reflexivity|]. destruct r as [|y r]; [discriminate|]. now rewrite sws_starts. }
+    congruence.
+  Qed.
+
+  (* the order of the two prefix tests *)
+  Lemma match_prefix_tried dict p text :
+    In p dict -> starts p text = true -> (forall q, In q (tried_before p dict) -> starts q text = false) ->
+    match_prefix dict text = Some p.
+  Proof.
+    unfold match_prefix. induction dict as [|q d IH]; intros Hin Hs Hb; [destruct Hin|]. cbn [find tried_before] in *.
+    destruct (str_eqb_spec q p) as [->|Hne]; [now rewrite Hs|].
+    rewrite (Hb q (or_introl eq_refl)). apply IH; [|exact Hs|].
+    - destruct Hin as [->|Hin]; [congruence | exact Hin].
+    - intros q' Hq'. apply Hb. now right.
+  Qed.
+
+  Lemma no_start_In kws text q : no_start kws text = true -> In q kws -> starts q text = false.
+  Proof. unfold no_start. intros H Hq. apply negb_true_iff. exact (forallb_In (fun kw => negb (starts kw text)) _ q H Hq). Qed.
+
+  Lemma lex_atom_unamb forbid arm name k :
+    (arm < length parse_atom_arms)%nat ->
+    SstOk.atom_unamb ia E forbid arm name k = true -> LexSpec.atom_unamb L (atom_prefix E arm) name k.
+  Proof.
+    intros Harm H. unfold SstOk.atom_unamb in H. rewrite !andb_true_iff in H. destruct H as [[[_ _] Hearlier] Hscan].
+    destruct (name_scan_ok_spec _ _ Hscan) as [_ Hcop]. split.
+    - apply match_prefix_tried; [now apply atom_prefix_in | apply starts_app |].
+      intros q Hq. destruct ag_parts as (_ & _ & Hord & _). unfold agree_prefix_order in Hord.
+      assert (Hi : In arm (seq 0 (length parse_atom_arms))) by (apply in_seq; lia).
+      pose proof (forallb_In _ _ _ Hord Hi) as H1. cbn beta zeta in H1.
+      pose proof (forallb_In _ _ _ H1 Hq) as H2. cbn beta in H2. apply orb_true_iff in H2 as [H2|H2].
+      + apply str_in_In in H2. now apply (no_start_In _ _ _ Hearlier).
+      + now apply incompat_starts.
+    - intros i Hi. apply match_prefix_none. intros q Hq. destruct ag_vocab as (_ & _ & _ & _ & Hsub & _).
+      apply copula_head_false; [now apply Hcop | now apply Hsub].
+  Qed.
+
+  Lemma lex_unamb_items fb l : forall i tail,
+    Forall (fun t => forall forbid k, tree_ok t = true ->
+                     unamb_ctx ia E forbid (respace 0 t) k = true -> LexSpec.unamb L (lex_tree E t) k) l ->
+    forallb tree_ok l = true ->
+    unamb_items E (unamb_ctx ia E fb) (render E) zgaps i (map (respace 0) l) tail = true ->
+    unamb_seq L (map (lex_tree E) l) tail.
+  Proof.
+    induction l as [|x l IH]; intros i tail HF Hok Hu; cbn [map unamb_seq]; [exact I|].
+    cbn [map] in Hu. rewrite unamb_items_cons in Hu. apply andb_true_iff in Hu as [Hx Hl].
+    inversion HF as [|? ? Hfx Hfl]; subst. cbn [forallb] in Hok. apply andb_true_iff in Hok as [Hokx Hokl]. split.
+    - rewrite <- (render_items_respace0 l (S i)).
+      + now apply (Hfx fb).
+      + intros y Hy. apply render_respace0. exact (forallb_In _ _ _ Hokl Hy).
+    - now apply (IH (S i)).
+  Qed.
+
+  (* the unambiguity conditions of the lexical term layer (C02) hold for the lexical reading of t as soon
+     as the enum-side conditions hold for t written WITHOUT any space *)
+  Theorem lex_unamb_of_enum : forall t forbid k, tree_ok t = true ->
+    unamb_ctx ia E forbid (respace 0 t) k = true -> LexSpec.unamb L (lex_tree E t) k.
+  Proof.
+    destruct ag_brackets as (Hcl & Hcr & Hsep & Hsl & Hsr).
+    induction t as [arm name|ext a g items b IH|arm a g items b IH|arm a b c d x y IHx IHy] using sterm_ind';
+      intros forbid k Hok Hu; cbn [respace lex_tree unamb_ctx] in *.
+    - cbn [LexSpec.unamb]. apply (lex_atom_unamb forbid); [exact (tree_ok_atom _ name Hok) | exact Hu].
+    - apply tree_ok_set in Hok as [_ Hall]. apply unamb_set. rewrite sp_zero in Hu. cbn [app] in Hu.
+      eapply lex_unamb_items; eauto.
+    - apply tree_ok_comp in Hok as (_ & _ & Hall). apply unamb_compound. rewrite sp_zero in Hu. cbn [app] in Hu.
+      rewrite Hcr. eapply lex_unamb_items; eauto.
+    - apply tree_ok_stmt in Hok as (_ & Hx & Hy). apply andb_true_iff in Hu as [Hux Huy].
+      rewrite !sp_zero in Hux, Huy. cbn [app] in Hux, Huy. cbn [LexSpec.unamb]. rewrite Hsr. split.
+      + rewrite <- (render_respace0 y Hy). now apply (IHx [space_parse E]).
+      + now apply (IHy [space_parse E]).
+  Qed.
+
+  (* names: the enum-side condition checks every character of every name *)
+  Lemma unamb_names : forall t forbid k, unamb_ctx ia E forbid t k = true -> names_ok ia E t = true.
+  Proof.
+    assert (Hitems : forall fb g l, Forall (fun t => forall forbid k, unamb_ctx ia E forbid t k = true -> names_ok ia E t = true) l ->
+              forall i tail, unamb_items E (unamb_ctx ia E fb) (render E) g i l tail = true -> forallb (names_ok ia E) l = true).
+    { intros fb g l HF. induction HF as [|x l Hx _ IH]; intros i tail Hu; [reflexivity|].
+      rewrite unamb_items_cons in Hu. apply andb_true_iff in Hu as [H1 H2]. cbn [forallb].
+      rewrite (Hx _ _ H1), (IH _ _ H2). reflexivity. }
+    induction t as [arm name|ext a g items b IH|arm a g items b IH|arm a b c d x y IHx IHy] using sterm_ind';
+      intros forbid k Hu; cbn [unamb_ctx names_ok] in *.
+    - unfold SstOk.atom_unamb in Hu. rewrite !andb_true_iff in Hu. destruct Hu as [_ Hs]. now apply name_scan_ok_spec in Hs.
+    - eapply Hitems; eauto.
+    - eapply Hitems; eauto.
+    - apply andb_true_iff in Hu as [H1 H2]. now rewrite (IHx _ _ H1), (IHy _ _ H2).
+  Qed.
+
+  (* the lexical domain of the term layer *)
+  Theorem lex_tree_ok : total_ok E = true -> forall t v,
+    odesugar t = Some v -> names_ok ia E t = true -> lterm_ok ia L (lex_tree E t) = true.
+  Proof.
+    intros Htot. destruct ag_vocab as (_ & _ & _ & Hsets & _ & Hid & _).
+    assert (Hitems : forall items vs,
+              Forall (fun t => forall v, odesugar t = Some v -> names_ok ia E t = true -> lterm_ok ia L (lex_tree E t) = true) items ->
+              omap odesugar items = Some vs -> forallb (names_ok ia E) items = true ->
+              forallb (lterm_ok ia L) (map (lex_tree E) items) = true).
+    { intros items vs HF Ho Hn. apply forallb_forall. intros z Hz. apply in_map_iff in Hz as [x [<- Hx]].
+      destruct (omap_some_each _ _ _ Ho x Hx) as [w Hw]. rewrite Forall_forall in HF.
+      exact (HF x Hx w Hw (forallb_In _ _ _ Hn Hx)). }
+    induction t as [arm name|ext a g items b IH|arm a g items b IH|arm a b c d x y IHx IHy] using sterm_ind';
+      intros v Hv Hn; pose proof (odesugar_tree_ok _ _ Hv) as Hshape; cbn [lex_tree lterm_ok names_ok] in *.
+    - rewrite (In_str_in _ _ (atom_prefix_in arm (tree_ok_atom _ _ Hshape))). cbn [andb].
+      replace (forallb (ident L ia) name) with (forallb (name_charb ia E) name) by (apply forallb_ext'; intros c; now rewrite Hid).
+      rewrite Hn. cbn [andb]. rewrite odesugar_atom in Hv. unfold atom_prefix.
+      destruct (nth_error parse_atom_arms arm) as [[p init]|] eqn:Harm; [|discriminate].
+      destruct name as [|c0 n0]; [|reflexivity]. cbn [LexParser.nonempty orb].
+      destruct init as [c|c|c]; cbn [atom_value] in Hv; try discriminate.
+      pose proof (ok_atoms unit tt (fun _ => true) E Htot) as Hu.
+      pose proof (forallb_In _ _ _ Hu (nth_error_In _ _ Harm)) as H1. cbn [snd fst] in H1.
+      destruct (p E); [discriminate | reflexivity].
+    - rewrite odesugar_set in Hv. destruct (omap odesugar items) as [[|v0 vs]|] eqn:Ho; try discriminate.
+      rewrite (In_pair_in _ _ (Hsets ext)). cbn [andb]. rewrite (Hitems _ _ IH Ho Hn), andb_true_r.
+      apply tree_ok_set in Hshape as [Hne _]. destruct items; [congruence | reflexivity].
+    - rewrite odesugar_comp in Hv. destruct (nth_error parse_compound_arms arm) as [[kw init]|] eqn:Harm; [|discriminate].
+      destruct (omap odesugar items) as [[|v0 vs]|] eqn:Ho; try discriminate.
+      apply tree_ok_comp in Hshape as (Hlt & Hne & _).
+      rewrite (In_str_in _ _ (comp_kw_in arm Hlt)). cbn [andb]. rewrite (Hitems _ _ IH Ho Hn), andb_true_r.
+      destruct items; [congruence | reflexivity].
+    - rewrite odesugar_stmt in Hv. destruct (nth_error parse_statement_arms arm) as [[kw bd]|] eqn:Harm; [|discriminate].
+      destruct (odesugar x) as [vx|] eqn:Hx; [|discriminate]. destruct (odesugar y) as [vy|] eqn:Hy; [|discriminate].
+      apply tree_ok_stmt in Hshape as (Hlt & _ & _). apply andb_true_iff in Hn as [Hnx Hny].
+      rewrite (In_str_in _ _ (stmt_kw_in arm Hlt)), (IHx _ eq_refl Hnx), (IHy _ eq_refl Hny). reflexivity.
   Qed.
 End AgreeTerm.
